@@ -640,6 +640,22 @@ def check_compound(rep, prog, fn, rule='R17c'):
                     base_this = False
             if base_this:
                 own_muts.append(node)
+    # writes through a local iterator that was obtained from an own container (`auto out = entries.begin(); *out++ = ...`)
+    own_iters = set()
+    for d in fn.walk():
+        if d.k == 'VarDecl' and d.c:
+            r = d.c[0].strip_all()
+            if r.k == 'CXXMemberCallExpr' and r.callee and r.callee['name'] in ('begin', 'end', 'rbegin', 'data') and r.object_arg() is not None:
+                o = r.object_arg().strip_all()
+                if o.k == 'MemberExpr' and o.decl and o.decl.get('kind') == 'field' and o.c and o.c[0].strip_all().k == 'CXXThisExpr':
+                    own_iters.add(d.decl_id)
+    for d in fn.walk():
+        if d.k in ('BinaryOperator', 'CXXOperatorCallExpr') and d.op == '=':
+            ops = d.c if d.k == 'BinaryOperator' else d.c[1:]
+            l = ops[0].strip_all() if ops else None
+            if l is not None and l.k in ('UnaryOperator', 'CXXOperatorCallExpr') and l.op == '*':
+                if any(x.k == 'DeclRefExpr' and x.decl_id in own_iters for x in l.walk()):
+                    own_muts.append(d)
     arg_reads = [d for d in fn.walk() if d.k == 'DeclRefExpr' and d.decl_id == pid]
     guarded = False
     for b in cfg.branch_blocks():
